@@ -284,8 +284,11 @@ pub fn sample_hdr(r: &mut Rng, enc: Enc, tabs: &mut Tabs, o: HdrOpts) -> Hdr {
         files_v5: vec![],
         pad: if r.chance(1, 5) { rbytes(r, 1, 5) } else { vec![] },
     };
-    let nd = if o.small { r.usize(2) } else { r.usize(5) };
-    let nf = if o.small { r.usize(3) } else { r.usize(6) };
+    // occasionally table sizes around the one-/two-byte ULEB128 and u8/u16 boundaries of the
+    // v5 count fields (a count read with the wrong width only shows from 128 entries on)
+    const BIG_COUNTS: [usize; 7] = [127, 128, 129, 255, 256, 257, 300];
+    let nd = if o.small { r.usize(2) } else if r.chance(1, 16) { *r.pick(&BIG_COUNTS) } else { r.usize(5) };
+    let nf = if o.small { r.usize(3) } else if r.chance(1, 16) { *r.pick(&BIG_COUNTS) } else { r.usize(6) };
     if enc.version <= 4 {
         for _ in 0..nd {
             h.dirs_v4.push(name(r));
